@@ -57,7 +57,9 @@ def one(arg):
     for step in range(depth):
         cands = candidate_edits(obj, case, rng)
         if not cands: break
-        f, mode, d, k = rng.choice(cands); history.append((f, mode, d, k))
+        falsy = [c_ for c_ in cands if (c_[2] == '' and c_[1] == 'replace' and len(obj.values_orders[c_[0]].content.get('', [])) > 1) or (c_[3] == '' and c_[1] == 'group')]
+        f, mode, d, k = rng.choice(falsy) if falsy else rng.choice(cands)          # edits around an empty-string leader first: group something into it, then rename it
+        history.append((f, mode, d, k))
         order0 = obj.values_orders[f]
         d_eff = obj.str_nan if isnan(d) else d
         rows_d = [i for i, v in enumerate(case['X'][ob.raw_feature_of(obj, f)].tolist()) if ob.group_of(obj, f, v) == order0.get_group(d_eff)]
@@ -111,6 +113,14 @@ def run(ctx):
     depth = 2 if ctx.tier == 'quick' else 3
     ctx.bound('update_discretizer', '%d fitted carvers / discretizers (seeded random frames), seeded random sequences of %d valid edits each (replace = rename of a leader by a new name): group of adjacent leaders (ordered features; '
               'quantitative: lower bucket into the next higher one), any two leaders (categorical), rename of a string leader, missing values into an existing group' % (len(specs), depth))
+    # every fourth frame gets an EMPTY-STRING category (frequent enough to be a modality of its own): a falsy value must be edited like any other
+    for i, (k, c, cfg) in enumerate(specs):
+        if i % 4 == 1 and c['qualitative']:
+            f0 = c['qualitative'][0]; col = c['X'][f0].copy()
+            if col.dtype == object:
+                idx = [j for j in range(len(col)) if j % 4 == 0]
+                for j in idx: col.iloc[j] = ''
+                c['X'][f0] = col
     args = [(k, c, cfg, ctx.seed * 7919 + i, depth) for i, (k, c, cfg) in enumerate(specs)]
     for recs in zoo.pmap(one, args):
         for clause, ok, wit, msg in recs:
